@@ -41,7 +41,7 @@ REQUIRED = (['fmt:' + f for f in FORMATS] + ['source:' + s for s in SOURCES] + [
             ['quoting:%d-judged' % q for q in (0, 1, 2, 3)] + ['cell-with-delimiter', 'cell-with-quotechar', 'cell-with-CR', 'cell-with-LF',
              'cell-with-CRLF', 'cell-with-NUL', 'append-bytes-compared', 'write_header=False', 'header-on-read', 'stdlib-not-lossless-skipped', 'target-held-older-longer-content', 'append-with-write_header=True', 'tojson-prefix-suffix', 'fromjson-with-missing'])
 
-ALPHA = [',', ';', '\t', '|', '"', "'", '\r', '\n', '\r\n', '\0', ' ', 'é', 'ü', '€', '漢', 'a', 'b', 'Z', '0', '1', '', '']
+ALPHA = ['\\', '\ufeff', ',', ';', '\t', '|', '"', "'", '\r', '\n', '\r\n', '\0', ' ', 'é', 'ü', '€', '漢', 'a', 'b', 'Z', '0', '1', '', '']
 TYPED = [None, 0, 1, -2, 2.5, True, False, gen.D(2020, 1, 1), (1, 'x'), b'by', 1e100]
 JSONCELLS = [None, True, False, 0, 1, -7, 2.5, 1e100, 0.1, '', 'a', 'é€漢', 'q"uote', 'back\\slash', 'nl\nx', ' ', [1, 2], [], ['a', [None]],
              {'k': 1}, {'k': {'n': [1]}}, (1, 2)]
@@ -274,7 +274,14 @@ def _judge_csv(case, ctx):
         if isinstance(got, util.Raised):
             out.append({'kind': 'exception', 'fn': 'from' + fmt, 'detail': got.text, 'where': got.where, 'after-append': bool(extra)})
         elif util.crows(got) != util.crows(exp_rows):
-            out.append({'kind': kind, 'expected': exp_rows, 'observed': got, 'args': kw})
+            v_ = {'kind': kind, 'expected': exp_rows, 'observed': got, 'args': kw}
+            # the file's very first character is a U+FEFF that belongs to the first cell, and it is the only thing that went missing
+            e0 = [list(r) for r in exp_rows]
+            w0 = 0 if write_header else 1        # the first row of the file (a header given on read is not in the file)
+            if len(e0) > w0 and e0[w0] and isinstance(e0[w0][0], str) and e0[w0][0].startswith('\ufeff'):
+                e0[w0][0] = e0[w0][0][1:]
+                v_['only-the-leading-U+FEFF-of-the-first-cell-is-lost'] = util.crows(got) == util.crows(e0)
+            out.append(v_)
         # ---- file text equals what the stdlib writes for the same rows
         b1 = _bytes(t1)
         try:
